@@ -15,6 +15,7 @@ from __future__ import annotations
 import ast
 from typing import Dict
 from typing import List
+from typing import Set
 from typing import Optional
 from typing import Tuple
 
@@ -231,6 +232,30 @@ def r12_4(ctx: Ctx) -> RuleResult:
                                construct=short(n))
                     else:
                         rr.ok(fn.loc(n), f"{name}: {short(n, 70)}")
+    # ... nor through another method: the operations that must leave the rest of the matches with the query may
+    # not call (directly or through other methods of the class) one that rewraps the shared iterator
+    def assigns_it(f) -> bool:  # type: ignore[no-untyped-def]
+        return any(
+            isinstance(n, (ast.Assign, ast.AugAssign)) and any(
+                path_of(t) == "self._it" for t in (n.targets if isinstance(n, ast.Assign) else [n.target]))
+            and not (isinstance(n, ast.Assign) and path_of(n.value) == "self._it")
+            for n in ast.walk(f.node))
+
+    def self_calls(f) -> Set[str]:  # type: ignore[no-untyped-def]
+        return {c.func.attr for c in calls(f.node) if isinstance(c.func, ast.Attribute) and path_of(c.func.value) == "self"
+                and c.func.attr in q.methods}
+
+    rewrap = {n for n, f in q.methods.items() if n != "__init__" and assigns_it(f)}
+    for _ in range(4):
+        rewrap |= {n for n, f in q.methods.items() if n != "__init__" and self_calls(f) & rewrap}
+    for name in ("take", "values", "locations", "items", "pointers", "first_one", "one"):
+        fn = q.methods.get(name)
+        if fn is None:
+            continue
+        for c in calls(fn.node):
+            if isinstance(c.func, ast.Attribute) and path_of(c.func.value) == "self" and c.func.attr in rewrap and c.func.attr != name:
+                rr.bad(fn, c, f"`{name}` calls `self.{c.func.attr}()`, which replaces the shared iterator: the matches after the "
+                       f"ones `{name}` hands out are lost to the query", construct=f"{name} -> self.{c.func.attr}()")
     tk = q.methods.get("take")
     if tk is not None:
         for c in calls(tk.node, "Query"):
